@@ -20,7 +20,7 @@ import (
 //	<ind>labels:                    (lab > 0: a label map with one symbolic plain value of lab bytes)
 //	<ind>  job: <value>
 //
-// parseRule is called with symbolic line/column offsets (the YAML-in-YAML case of parseNode) and must return a rule
+// parseRule is called with line/column offsets (job parameters) (the YAML-in-YAML case of parseNode) and must return a rule
 // whose expr / alert / for / label positions are the generator's places shifted by the offsets, and whose Lines is
 // exactly [first line, last line] of the rule shifted by the line offset, i.e. encloses every field and stays
 // inside the file.
@@ -69,6 +69,7 @@ func verifExact(prs diags.PositionRanges, line, col, n int, what string) {
 }
 
 func VerifHarness_ParseRule() {
+	verifExtra = nil // the native replay runs several cases in one process
 	verifKey = "expr"
 	verifPre = [2]string{"alert", "foo"}
 	verifPost = [2]string{"for", "5m"}
@@ -102,8 +103,8 @@ func VerifHarness_ParseRule() {
 	verifObserve("column", val.Column)
 	verifObserve("keycolumn", key.Column)
 
-	offL, offC := verifInt("offl"), verifInt("offc")
-	verifAssume(verifAnd(verifAnd(offL >= 0, offL <= 3), verifAnd(offC >= 0, offC <= 3)))
+	// the offsets of the YAML-in-YAML case are job parameters (AddOffset itself is covered symbolically by L2)
+	offL, offC := verifParam("offl"), verifParam("offc")
 
 	rule, isEmpty := parseRule(verifRoot, offL, offC, L.lines)
 	verifAssert(!isEmpty, "parseRule finds the rule")
@@ -117,6 +118,13 @@ func VerifHarness_ParseRule() {
 	// expr: value and places
 	expr := ar.Expr.Value
 	verifAssert(expr.Value == L.value, "expr value is the node value")
+	// on the unchanged code the positions are constants; when a change makes them depend on byte comparisons the
+	// case split keeps every obligation below a small query (the ranges are generous, outside = failure)
+	for i := range expr.Pos {
+		expr.Pos[i].Line = verifConcretize(expr.Pos[i].Line, -2, len(L.lines)+offL+2)
+		expr.Pos[i].FirstColumn = verifConcretize(expr.Pos[i].FirstColumn, -2, 40)
+		expr.Pos[i].LastColumn = verifConcretize(expr.Pos[i].LastColumn, -2, 40)
+	}
 	n := verifLen(expr.Pos)
 	verifAssert(n >= L.content, "expr: every value character up to the last non-newline one has a position")
 	verifAssert(n <= len(L.places), "expr: no more positions than value characters")
